@@ -119,6 +119,91 @@ def reach_csv_text(la: int, lb: int) -> bool:
     return len(h.GenerateCSVtext()) > 0
 
 
+def _group(kind: int, n: int) -> TimeSeriesHolder:
+    """A series group as the solver fills it: main / initial-steady-state groups are keyed on 'k', the step trace on 'iteration'."""
+    name = ('k', 'iteration', 'k')[kind]
+    h = TimeSeriesHolder(name)
+    h['x'] = [1.5 + i for i in range(n)]
+    h['k'] = [float(i) for i in range(n)]
+    h['t'] = [1950. + i for i in range(n)]
+    if kind == 1:
+        h['iteration'] = [float(i) for i in range(n)]
+        h['iteration_error'] = [0.5 for i in range(n)]
+        h['iteration_abs_change'] = [0.25 for i in range(n)]
+    if kind == 2:
+        h['y'] = [2.5 for i in range(n)]
+    return h
+
+
+def _pristine_refs():
+    """Reference text of every (group, length), each rendered in a process of its own that has rendered nothing else.
+    CrossHair explores all paths of a condition in ONE process, so state a renderer leaves behind at class or module level
+    survives from path to path; comparing only renderings made inside that process would accept any change that is
+    self-consistent after the first perturbation."""
+    import os, subprocess, sys
+    if os.environ.get('C16_NOREF'):
+        return {}
+    refs = {}
+    env = dict(os.environ, C16_NOREF='1')
+    procs = {}
+    for g in range(3):
+        for n in (1, 2):
+            code = 'from vf.harness.c16_h import _group; import sys; sys.stdout.write(_group(%d, %d).GenerateCSVtext())' % (g, n)
+            procs[(g, n)] = subprocess.Popen([sys.executable, '-W', 'ignore', '-c', code], env=env, stdout=subprocess.PIPE, stderr=subprocess.DEVNULL)
+    for key, pr in procs.items():
+        out = pr.communicate()[0].decode()
+        if pr.returncode != 0 or not out:
+            raise RuntimeError('reference rendering failed for %r' % (key,))
+        refs[key] = out
+    return refs
+
+
+_REF = _pristine_refs()
+
+
+def check_render_interleaved_groups(seq: List[int], n: int) -> bool:
+    """
+    pre: 1 <= len(seq) <= 4
+    pre: all(0 <= g <= 2 for g in seq)
+    pre: 1 <= n <= 2
+    post: _
+    """
+    groups = [_group(0, n), _group(1, n), _group(2, n)]
+    snap = [{k: list(v) for k, v in g.items()} for g in groups]
+    es = EquationSolver()
+    es.TimeSeries = groups[0]
+    first = {}
+    for g in seq:
+        text = es.GenerateCSVtext() if g == 0 else groups[g].GenerateCSVtext()
+        if g in first and text != first[g]:
+            return False                                   # same stored series, different text
+        first[g] = text
+        if _group(g, n).GenerateCSVtext() != text:         # an identical group renders the same text
+            return False
+        if _REF[(g, n)] != text:                           # ... also in a process that rendered nothing before
+            return False
+        cols = text.split(chr(10))[0].split(chr(9))
+        if sorted(cols) != sorted(groups[g].keys()):
+            return False
+    return [{k: list(v) for k, v in g.items()} for g in groups] == snap
+
+
+WARMUP = {'check_render_interleaved_groups': ['check_render_interleaved_groups(%r, %d)' % (list(q), n) for n in (1, 2) for L in (1, 2, 3)
+                                              for q in __import__('itertools').product((0, 1, 2), repeat=L)]}
+
+
+def reach_render_interleaved_groups(seq: List[int]) -> bool:
+    """
+    pre: 1 <= len(seq) <= 4
+    pre: all(0 <= g <= 2 for g in seq)
+    post: not (_ and len(seq) == 3 and seq[0] == 1 and seq[1] == 0 and seq[2] == 1)
+    """
+    groups = [_group(0, 2), _group(1, 2), _group(2, 2)]
+    for g in seq:
+        groups[g].GenerateCSVtext()
+    return True
+
+
 def check_create_csv_string(pos_t: int, has_t: bool, n: int, n_calls: int) -> bool:
     """
     pre: 0 <= pos_t <= 2
